@@ -4,7 +4,7 @@ p=$1; id=$2; tier=${3:-quick}
 cd /repo || exit 9
 if ! git diff --quiet; then echo "/repo dirty"; exit 9; fi
 if ! git apply "$p" 2>/dev/null; then
-  if ! git apply -3 "$p" 2>/dev/null; then echo "PATCH DOES NOT APPLY: $p"; git checkout -- . ; exit 8; fi
+  if ! git apply -3 "$p" 2>/dev/null; then echo "PATCH DOES NOT APPLY: $p"; git reset -q --hard HEAD; exit 8; fi
   git reset -q
 fi
 ( cd /verif && VERIF_DIR=/verif timeout 3600 ./run.sh $id $tier > /tmp/mutcheck.$$.log 2>&1 ); rc=$?
